@@ -134,12 +134,11 @@ class Soap12(Soap11):
                                                         subelts, add_type=False)
 
     def schema_validation_error_to_parent(self, ctx, cls, inst, parent, ns, **_):
-        subelts = [
-            E("{%s}Reason" % self.soap_env, inst.faultstring),
-            E("{%s}Role" % self.soap_env, inst.faultactor),
-        ]
+        # the schema validator hands the message over as (ascii) bytes.
+        if isinstance(inst.faultstring, bytes):
+            inst.faultstring = inst.faultstring.decode('ascii')
 
-        return self._fault_to_parent_impl(ctx, cls, inst, parent, ns, subelts)
+        return self.fault_to_parent(ctx, cls, inst, parent, ns)
 
     def fault_from_element(self, ctx, cls, element):
         nsmap = {'soap': self.ns_soap_env}
